@@ -96,7 +96,7 @@ def run(m, chk):
         "no IndexError from the constructor's index scans (X-INDEX), span/mult/split dominated by the valid ⇒ ValueError guard. "
         "Completeness of the validator (that it accepts exactly the clamped vectors) and the values of span/mult are not decided."
     )
-    chk.decides = ["FUNNEL", "COMMIT-LAST (KnotVector)", "V1", "X-INDEX", "GATE(valid ⇒ ValueError) for span/mult/split"]
+    chk.decides = ["FUNNEL", "COMMIT-LAST (KnotVector)", "V1", "X-INDEX", "GATE(valid ⇒ ValueError) for span/mult/split", 'MULT-KEEP (distinct knots never become knot-vector elements without their multiplicity)']
     chk.not_decided = ["completeness of __is_valid (tails / unclamped vectors are accepted — seen by reading, out of static reach)", "agreement of span/mult/knots/limits values with the element list"]
 
     # 1. funnel ------------------------------------------------------------------------------
